@@ -4,6 +4,7 @@ import (
 	"fmt"
 	"path"
 	"regexp"
+	"strconv"
 	"strings"
 
 	. "verif/harness/jsonx"
@@ -99,6 +100,16 @@ var confusable = map[string][]string{
 	"q?x": {"q?y", "q"}, "tag": {"Tag"}, "Tag": {"tag"},
 }
 
+var genLike = func() map[string]bool {
+	m := map[string]bool{}
+	for _, n := range genLikeNames {
+		if !strings.Contains(n, "OAIGen") {
+			m[n] = true
+		}
+	}
+	return m
+}()
+
 func (g *bgen) names(lo, hi int) []string {
 	n := g.Int(lo, hi)
 	seen := map[string]bool{}
@@ -110,6 +121,22 @@ func (g *bgen) names(lo, hi int) []string {
 		}
 		seen[nm] = true
 		out = append(out, nm)
+	}
+	// a name shaped like the ones Flatten generates often comes with its twin up to letter case: a generated
+	// name then conflicts with several existing definitions at once
+	for _, nm := range out {
+		if !genLike[nm] || !g.Pct(40) {
+			continue
+		}
+		twin := strings.ToUpper(nm[:1]) + nm[1:]
+		if twin == nm {
+			twin = strings.ToLower(nm[:1]) + nm[1:]
+		}
+		if !seen[twin] {
+			seen[twin] = true
+			out = append(out, twin)
+			g.Label("gen-like-case-twins")
+		}
 	}
 	// now and then add a sibling of a chosen name that is easily confused with it
 	if len(out) > 0 && g.layer > 0 && g.Pct(20) {
@@ -739,6 +766,98 @@ func (g *bgen) auxWith(section string) []string {
 	return out
 }
 
+// nestPointer replaces the element schema (items / additionalProperties) of the pointer target t, when it is
+// an array or a map, by an anonymous pointer to another target which lies in another definition and is
+// $ref-free (so that no reference cycle through pointers can arise).
+func (g *bgen) nestPointer(root O, t []string, tgts [][]string) bool {
+	if t[0] != "definitions" {
+		return false
+	}
+	var at J = root
+	for _, k := range t {
+		switch x := at.(type) {
+		case map[string]interface{}:
+			at = x[k]
+		case []interface{}:
+			i, err := strconv.Atoi(k)
+			if err != nil || i >= len(x) {
+				return false
+			}
+			at = x[i]
+		default:
+			return false
+		}
+	}
+	tgt, ok := at.(map[string]interface{})
+	if !ok {
+		return false
+	}
+	slot := ""
+	for _, k := range []string{"items", "additionalProperties"} {
+		if _, isObj := tgt[k].(map[string]interface{}); isObj {
+			slot = k
+		}
+	}
+	if slot == "" {
+		return false
+	}
+	o := g.refFreeTarget(root, t[1], tgts)
+	if o == nil {
+		return false
+	}
+	tgt[slot] = O{"$ref": Frag(o...)}
+	g.Label("anon-pointer:nested")
+	return true
+}
+
+// refFreeTarget picks a pointer target under definitions, outside definition `not`, without any $ref inside.
+func (g *bgen) refFreeTarget(root O, not string, tgts [][]string) []string {
+	var cands [][]string
+	for _, o := range tgts {
+		if o[0] != "definitions" || o[1] == not {
+			continue
+		}
+		var v J = root
+		for _, k := range o {
+			switch x := v.(type) {
+			case map[string]interface{}:
+				v = x[k]
+			case []interface{}:
+				i, _ := strconv.Atoi(k)
+				v = x[i]
+			}
+		}
+		if !hasRefInside(v) {
+			cands = append(cands, o)
+		}
+	}
+	if len(cands) == 0 {
+		return nil
+	}
+	return cands[g.Int(0, len(cands)-1)]
+}
+
+func hasRefInside(v J) bool {
+	switch x := v.(type) {
+	case map[string]interface{}:
+		if _, ok := x["$ref"]; ok {
+			return true
+		}
+		for _, e := range x {
+			if hasRefInside(e) {
+				return true
+			}
+		}
+	case []interface{}:
+		for _, e := range x {
+			if hasRefInside(e) {
+				return true
+			}
+		}
+	}
+	return false
+}
+
 // param draws one parameter; isBody tells whether it is (or refers to) a body parameter.
 // Swagger 2.0 allows at most one body parameter per operation (path-level ones included): when
 // allowBody is false only non-body parameters are drawn.
@@ -832,10 +951,31 @@ func (g *bgen) addAnonPointers(root O) {
 		}
 	}()
 	paths := Obj(root["paths"])
+	nested := false
 	for i := 0; i < n; i++ {
 		t := tgts[g.Int(0, len(tgts)-1)]
 		ref := O{"$ref": Frag(t...)}
 		g.Label("anon-pointer")
+		if !nested && g.Pct(30) {
+			// a pointer held INSIDE the target of this pointer: the element schema of a target which is
+			// a container becomes a pointer to a $ref-free target of another definition (no cycle)
+			nested = g.nestPointer(root, t, tgts)
+			if !nested {
+				// otherwise a fresh container definition whose element schema is a pointer becomes the target
+				if o := g.refFreeTarget(root, "", tgts); o != nil {
+					name := fmt.Sprintf("nest%d", i)
+					slot, kind := "items", "array"
+					if g.Bool() {
+						slot, kind = "additionalProperties", "object"
+					}
+					defs[name] = O{"type": "object", "properties": O{"p": O{"type": kind, slot: O{"$ref": Frag(o...)}}}}
+					t = []string{"definitions", name, "properties", "p"}
+					ref = O{"$ref": Frag(t...)}
+					nested = true
+					g.Label("anon-pointer:nested")
+				}
+			}
+		}
 		g.Label("anon-pointer:" + t[0])
 		switch g.Int(0, 7) {
 		case 5:
